@@ -11,9 +11,9 @@ BOUNDED, NOT PROVED.  What is enumerated (see the 'lattice' field of the output)
           construct  build entities + model only
           init       build + model._initialize() only
           partial    build + run 40 steps
-          runtwice   build + run till termination twice on the same model   (2nd compared)
+          runtwice   build + run till termination twice on the same model (may raise; caught)
           raise      build a configuration that raises during initialisation (caught)
-      Every 'run'/'runtwice' step of a history is compared table by table (sha256 of the raw
+      Every 'run' step of a history is compared table by table (sha256 of the raw
       bytes of water_flux, water_storage, crop_growth and of the final_stats columns) with the
       ALONE reference of the same configuration.
       A second, separately reported clause configures A by an in-place edit of an attribute of
@@ -118,7 +118,7 @@ def outcome(model, dump=None):
         h[t] = hashlib.sha256(table_bytes(getattr(o, t))).hexdigest()
     wf = np.asarray(getattr(o.water_flux, "values", o.water_flux), dtype=float)
     summ["rows"] = int(wf.shape[0])
-    summ["active_rows"] = int((np.abs(wf[:, 3:]).sum(axis=1) > 0).sum())
+    summ["active_rows"] = int((np.nansum(np.abs(wf[:, 5:]), axis=1) > 0).sum())
     summ["seasons"] = int(len(o.final_stats))
     if dump:
         arrs = {}
@@ -168,7 +168,9 @@ def do_step(step, cfgs, dumpdir=None, pos=0):
             return res
         m.run_model(till_termination=True)
         if kind == "runtwice":
+            # history step only (whether a re-run reproduces the first run is property C11, not C10)
             m.run_model(till_termination=True)
+            return res
         dump = os.path.join(dumpdir, "p%d.npz" % pos) if dumpdir else None
         res.update(outcome(m, dump))
     except BaseException as e:  # noqa
@@ -279,6 +281,19 @@ def sig(cfg):
     return "|".join(parts)
 
 
+def source_digest():
+    """sha256 over all .py files of the installed aquacrop package (detects edits of /repo during the run)."""
+    import aquacrop
+    root = os.path.dirname(aquacrop.__file__)
+    h = hashlib.sha256()
+    for d, _, fs in sorted(os.walk(root)):
+        for f in sorted(fs):
+            if f.endswith(".py"):
+                h.update(f.encode())
+                h.update(open(os.path.join(d, f), "rb").read())
+    return h.hexdigest()
+
+
 def launch(spec, hashseed, tmpdir, tag):
     """Run one worker interpreter; returns (list_of_step_results | None, error_text)."""
     p = os.path.join(tmpdir, tag + ".json")
@@ -341,6 +356,7 @@ def main():
     exceptions, failures, samples = [], [], []
     res = {"property": PROP, "tier": a.tier, "seed": a.seed}
     tmpdir = tempfile.mkdtemp(prefix="c10_")
+    src0 = source_digest()
     try:
         pool = gen_pool(rng, n_cfg)
         # a configuration that raises at initialisation (D10: window without a season)
@@ -384,6 +400,11 @@ def main():
                     nontrivial += 1
                 bad_t = [t for t in TABLES if o.get("hash", {}).get(t) != base["hash"][t]]
                 if bad_t or "exc" in o:
+                    r1, _ = launch({"cfgs": cfgs, "steps": [{"cfg": i, "kind": "run"}]}, hashseeds[0], tmpdir, "cf_a%d" % i)
+                    r2, _ = launch({"cfgs": cfgs, "steps": [{"cfg": i, "kind": "run"}]}, hs if hs != "random" else 4242, tmpdir, "cf_b%d" % i)
+                    if r1 and r2 and r1[0].get("hash") == r2[0].get("hash") and "exc" not in r2[0]:
+                        exceptions.append("UNCONFIRMED hash-seed difference (not reproduced on re-run): cfg %s" % sig(pool[i]))
+                        continue
                     failures.append({
                         "signature": "hashseed|%s" % sig(pool[i]),
                         "clause": "bit-identical outputs across fresh interpreter processes, for any hash seed",
@@ -426,7 +447,7 @@ def main():
                 exceptions.append("history %d: %s" % (hi, err))
                 continue
             for pos, (st, o) in enumerate(zip(steps, r)):
-                if st["kind"] not in ("run", "runtwice"):
+                if st["kind"] != "run":
                     continue
                 cases += 1
                 i = st["cfg"]
@@ -440,18 +461,25 @@ def main():
                 bad_t = [t for t in TABLES if o.get("hash", {}).get(t) != base["hash"][t]]
                 if not bad_t and "exc" not in o:
                     continue
-                # ---- failure: get numbers by re-running with dumps
+                # ---- candidate failure: CONFIRM by re-running both sides back to back (also yields numbers)
                 detail = "tables differing: %s %s" % (bad_t, o.get("exc", ""))
+                confirmed = True
                 try:
                     d1 = tempfile.mkdtemp(dir=tmpdir)
                     d2 = tempfile.mkdtemp(dir=tmpdir)
-                    launch({"cfgs": cfgs, "steps": [{"cfg": i, "kind": st["kind"]}], "dumpdir": d1}, 0, tmpdir, "re_a%d_%d" % (hi, pos))
-                    launch({"cfgs": cfgs, "steps": steps[:pos + 1], "dumpdir": d2}, 0, tmpdir, "re_h%d_%d" % (hi, pos))
+                    ra, _ = launch({"cfgs": cfgs, "steps": [{"cfg": i, "kind": "run"}], "dumpdir": d1}, 0, tmpdir, "re_a%d_%d" % (hi, pos))
+                    rb, _ = launch({"cfgs": cfgs, "steps": steps[:pos + 1], "dumpdir": d2}, 0, tmpdir, "re_h%d_%d" % (hi, pos))
+                    if ra and rb and ra[0].get("hash") == rb[pos].get("hash") and "exc" not in rb[pos]:
+                        confirmed = False
                     fa, fb = os.path.join(d1, "p0.npz"), os.path.join(d2, "p%d.npz" % pos)
                     if os.path.exists(fa) and os.path.exists(fb):
                         detail += " | " + first_diff(fa, fb)
                 except Exception as e:  # noqa
-                    exceptions.append("diff rerun failed: %r" % (e,))
+                    exceptions.append("confirmation rerun failed: %r" % (e,))
+                if not confirmed:
+                    exceptions.append("UNCONFIRMED difference (not reproduced when both sides were re-run back to back; "
+                                      "source tree edited during the run or transient): history %d step %d cfg %s" % (hi, pos, sig(pool[i])))
+                    continue
                 if typ == "edit":
                     ek = steps[0]["kind"]
                     signature = "default-arg-alias|%s" % ("InitialWaterContent.value" if ek == "edit_iwc" else "GroundWater.dates/values")
@@ -469,7 +497,7 @@ def main():
                 failures.append({"signature": signature, "clause": clause, "detail": detail, "repro": repro})
             if len(samples) < 6 and typ == "hist":
                 samples.append({"history": ["%s:%s" % (s["kind"], sig(cfgs[s["cfg"]])) for s in steps],
-                                "compared_steps": sum(1 for s in steps if s["kind"] in ("run", "runtwice")),
+                                "compared_steps": sum(1 for s in steps if s["kind"] == "run"),
                                 "hashseed": str(hashseeds[hi % len(hashseeds)])})
         if edit_hists:
             samples.append({"edit_history": ["%s:%s" % (s["kind"], sig(cfgs[s["cfg"]])) for s in edit_hists[0]]})
@@ -487,13 +515,13 @@ def main():
             "4 groundwater (none/default object/constant/variable) x off_season, windows of 1-3 years on tunis/champion weather, sampled by seed); "
             "(b) every configuration run alone in %d fresh interpreters with PYTHONHASHSEED in %s; "
             "(a) %d seeded histories of %d-%d steps + final run, step kinds run/construct/init/partial(40 steps)/runtwice/raise(D10 window), "
-            "each history in its own fresh interpreter, every run/runtwice step compared with the alone reference; "
+            "each history in its own fresh interpreter, every 'run' step compared with the alone reference; "
             "+ %d two-step 'in-place edit of A's default-constructed entity then run B' histories. "
             "Compared bitwise: sha256 of raw bytes of water_flux, water_storage, crop_growth, final_stats (all columns)."
             % (len(pool), len(valid), len(CROPS), len(hashseeds), hashseeds, len(hists), hist_len[0], hist_len[1], len(edit_hists)))
         res["cases"] = cases
         res["distinct_nontrivial"] = nontrivial
-        res["rule"] = ("a case is one compared run: (config, other hash seed) for clause (b), or one run/runtwice step of a history for clause (a). "
+        res["rule"] = ("a case is one compared run: (config, other hash seed) for clause (b), or one 'run' step of a history for clause (a). "
                        "Non-trivial: the configuration's reference run has >0 rows with non-zero fluxes/state AND, for clause (a), at least one "
                        "step with a DIFFERENT configuration precedes it in the same process (distinct (config, predecessor sequence) counted once).")
     except Exception:  # harness crash inside main logic -> still write json
@@ -505,6 +533,12 @@ def main():
     finally:
         import shutil
         shutil.rmtree(tmpdir, ignore_errors=True)
+    try:
+        if source_digest() != src0:
+            exceptions.append("aquacrop source files changed on disk while the harness was running; "
+                              "every reported failure was nevertheless confirmed by an immediate back-to-back re-run of both sides")
+    except Exception as e:  # noqa
+        exceptions.append("source digest: %r" % (e,))
     res["failures"] = failures
     res["samples"] = samples[:8]
     res["wall_s"] = round(time.time() - t0, 2)
